@@ -28,6 +28,11 @@ class InvalidP8PNGError(util.InvalidP8DataError):
     pass
 
 
+class CodeTooLargeError(util.InvalidP8DataError):
+    """Exception for Lua code that does not fit in the cart's code area."""
+    pass
+
+
 def get_picodata_from_pngdata(width, height, pngdata, attrs):
     """Extracts PICO-8 bytes from a .p8.png's PNG data.
 
@@ -160,7 +165,16 @@ def get_bytes_from_code(code, version=None):
         # Use uncompressed.
         code_bytes = bytes(code)
 
-    byte_array = bytearray(0x8000-0x4300)
+    code_area_size = 0x8000-0x4300
+    if len(code_bytes) > code_area_size and len(code) <= code_area_size:
+        # The compression header pushed it over; the plain text still fits.
+        code_bytes = bytes(code)
+    if len(code_bytes) > code_area_size:
+        raise CodeTooLargeError(
+            'Lua code is too large for a .p8.png cart: needs {} bytes, '
+            'limit is {}'.format(len(code_bytes), code_area_size))
+
+    byte_array = bytearray(code_area_size)
     byte_array[:len(code_bytes)] = code_bytes
 
     return byte_array
